@@ -313,6 +313,8 @@ class World:
             return np.array_equal(np.asarray(v(self.Q)), np.asarray(r(self.Q)))
         try:
             va, ra = np.asarray(v), np.asarray(r)
+            if va.ndim == 0 and ra.ndim == 0:
+                return bool(va == ra)        # a Python int handed back through the constructor becomes the equal float
             return va.shape == ra.shape and va.dtype == ra.dtype and np.array_equal(va, ra, equal_nan=True)
         except Exception:  # noqa
             return v == r
@@ -503,7 +505,7 @@ def run(ctx):
     bad = {}
     if gen is not None:
         try:
-            bad = ctx.run_cases("c18_seq", IMPORTS + " C18Thm", coq_cases, shard=500)
+            bad = ctx.run_cases("c18_seq", IMPORTS, coq_cases, shard=500)
         except Broken as b:
             ctx.broken.append(b)
         for i, shown in list(bad.items())[:12]:
